@@ -227,6 +227,7 @@ Definition fails (b : bool) (k : nat) : list nat := if b then [] else [k].
     16 a stored ack changed or disappeared                                     C05
     17 a commitment disappeared without an accepted ack of exactly that packet C05
     18 second acknowledgement of the same packet accepted                      C05
+    23 an acknowledgement appeared that is not the one of an accepted receive of exactly that triple   C05
     19 accepted receive/ack not verified (client API or low-level recomputation false, no client, stored
        commitment differs)                                                     C02 *)
 Definition mon_step (o : oracles) (m : mchain) (st : ostep) : list nat * mchain :=
@@ -300,6 +301,14 @@ Definition mon_step (o : oracles) (m : mchain) (st : ostep) : list nat * mchain 
         else ([], m_recvd m, m_acked m)
     | _ => ([], m_recvd m, m_acked m)
     end in
+  (* C05: acknowledgements that appeared: only the one of an accepted receive's own triple *)
+  let newacks := filter (fun kv => negb (ahas (fst kv) before)) (family (B "acks/") after) in
+  let k23 := fails (forallb (fun kv =>
+                       match os_act st with
+                       | ARecv msg _ =>
+                           let '(p, _) := t_decode o (rm_packet msg) in
+                           accepted && bytes_eqb (fst kv) (c_ack_key (p_src p) (p_dst p) (p_seq p))
+                       | _ => false end) newacks) 23 in
   (* C05: commitments that disappeared *)
   let gone := filter (fun kv => negb (ahas (fst kv) after)) (family (B "commitments/") before) in
   let k17 := fails (forallb (fun kv =>
@@ -309,7 +318,7 @@ Definition mon_step (o : oracles) (m : mchain) (st : ostep) : list nat * mchain 
                            accepted && bytes_eqb (fst kv) (c_commitment_key (p_src p) (p_dst p) (p_seq p))
                            && match t_pack o p with Some bz => bytes_eqb (snd kv) (t_sha o bz) | None => false end
                        | _ => false end) gone) 17 in
-  (k12 ++ k20 ++ k16 ++ k13 ++ k14 ++ kmsg ++ k17, mkM (m_name m) clients' after recvd' acked').
+  (k12 ++ k20 ++ k16 ++ k13 ++ k14 ++ kmsg ++ k17 ++ k23, mkM (m_name m) clients' after recvd' acked').
 
 Fixpoint mon_steps (o : oracles) (i : nat) (ms : list mchain) (l : list ostep) : list (nat * nat) :=
   match l with
